@@ -4,7 +4,7 @@
    Model/C20_Fanout.v.  "History" = any list of operations (any length, any order, any arguments);
    the conditions [guarded .. g h init] restrict histories only by what the chain clock and the
    scheduler guarantee (stated with each theorem). *)
-From Verif Require Import Lib.Base Lib.Sched Model.C20_Bookkeeping Model.C20_Fanout Proofs.C20_Bookkeeping Proofs.C20_Fanout Proofs.C20_Unbounded Model.C20_Jobs Proofs.C20_Jobs.
+From Verif Require Import Lib.Base Lib.Sched Model.C20_Bookkeeping Model.C20_Fanout Proofs.C20_Bookkeeping Proofs.C20_Fanout Proofs.C20_Unbounded Model.C20_Jobs Proofs.C20_Jobs Model.C20_Setup Proofs.C20_Setup.
 
 (* ---------------------------------------------------------------------------------------------- *)
 (* attested (services/attester/standard): in every history whose attestation jobs start in slot
@@ -71,6 +71,67 @@ Theorem C20_pending_overlap_refuted :
   exists h s, let st := run 4 true h init in has_pending st s = false /\ in_flight st s = true.
 Proof. exists [OSched 5 false [5]; OStart 5; OSched 5 false [5]; OFinish 5 true], 5. vm_compute. auto. Qed.
 Print Assumptions C20_pending_overlap_refuted.
+
+(* ---------------------------------------------------------------------------------------------- *)
+(* The set-up of one slot's attestation job at the granularity of the goroutines (Model/C20_Setup.v):
+   the loop of scheduleAttestations marks the slot (SBegin), the goroutine it starts calls
+   ScheduleJob (SCall) and later executes whatever follows the call (SResume); the scheduler starts
+   the job (SStart: at once for a job whose time has come), the job function ends (SFinish), a reorg
+   refresh cancels the job (SCancel).  A "schedule" is any list of these actions: in particular the
+   job may be started, finish or be cancelled while its set-up goroutine is still parked behind
+   ScheduleJob.  [sstep false] = the code as it is (mark in the loop, before the goroutine exists);
+   [sstep true] = the mark set by the goroutine after ScheduleJob returned nil. *)
+
+(* In EVERY schedule, with no condition at all: a marked slot has its job in the table or executing,
+   or a set-up goroutine of it has not reached the scheduler yet.  Once the set-up goroutines have
+   come to rest, HasPendingAttestations = true implies an attestation in flight: a requested
+   shutdown waits for nothing else. *)
+Theorem C20_setup_no_stale_mark :
+  forall l, let st := srun false l sinit in
+    s_mark st = true -> s_job st = true \/ s_run st <> O \/ s_spawned st <> O.
+Proof. exact setup_no_stale_mark. Qed.
+Print Assumptions C20_setup_no_stale_mark.
+
+(* Exactness at every instant, including while set-up goroutines are parked behind ScheduleJob and
+   the job runs or is cancelled meanwhile.  Condition [sguard]: between the loop's mark and the
+   goroutine's ScheduleJob call the slot's job is neither started nor cancelled, and the slot is
+   not set up again while its job is executing. *)
+Theorem C20_setup_pending_exact :
+  forall l, sguarded false l sinit = true ->
+    let st := srun false l sinit in
+    (s_mark st = true <-> (s_job st = true \/ s_run st <> O \/ s_spawned st <> O)) /\
+    (s_in_flight st = true -> s_mark st = true).
+Proof. exact setup_pending_exact. Qed.
+Print Assumptions C20_setup_pending_exact.
+
+(* The mark set after ScheduleJob has returned: (a) the job is in the table and the slot is not
+   reported as pending; (b) an overdue job that runs to its end - or a job that a refresh cancels -
+   before its set-up goroutine continues leaves the mark set with nothing in flight and no set-up
+   goroutine left, and no later action other than a new set-up of that very slot ever clears it:
+   a shutdown requested in that slot waits for ever.  Both schedules satisfy [sguard]. *)
+Theorem C20_setup_late_mark_refuted :
+  (let st := srun true [SBegin; SCall] sinit in
+     sguarded true [SBegin; SCall] sinit = true /\ s_in_flight st = true /\ s_mark st = false) /\
+  (forall gap, gap = [SStart; SFinish] \/ gap = [SCancel] ->
+     let l := [SBegin; SCall] ++ gap ++ [SResume] in
+     sguarded true l sinit = true /\
+     srun true l sinit = stale /\
+     s_mark stale = true /\ s_in_flight stale = false /\ s_setting_up stale = false /\ s_sched stale = O /\
+     forall l', has_begin l' = false -> srun true l' stale = stale).
+Proof.
+  split; [vm_compute; auto|].
+  intros gap [E|E]; subst gap; (repeat split; try reflexivity); exact stale_for_ever.
+Qed.
+Print Assumptions C20_setup_late_mark_refuted.
+
+(* Without the condition the "in flight => marked" direction fails even for the code as it is: a
+   second set-up of the slot whose goroutine has not reached the scheduler when a refresh cancels
+   the first job registers a job for an unmarked slot (needs a refresh running concurrently with a
+   set-up of the same epoch; window: from the loop's mark to the goroutine's ScheduleJob call). *)
+Theorem C20_setup_unguarded_refuted :
+  exists l, let st := srun false l sinit in s_in_flight st = true /\ s_mark st = false.
+Proof. exists [SBegin; SCall; SBegin; SCancel; SCall]. vm_compute. auto. Qed.
+Print Assumptions C20_setup_unguarded_refuted.
 
 (* ---------------------------------------------------------------------------------------------- *)
 (* subscriptionInfos: with a chain clock that does not go backwards and subscriptions made for the
@@ -285,4 +346,14 @@ Proof. vm_compute. auto. Qed.
 Example C20_unblind_all_fail_example :
   let s := scenario 2 2 1 false true [FRelease 0 false; FRelease 1 false] in
   final s = true /\ f_coll_done s = true /\ f_recvd s = 0.
+Proof. vm_compute. auto. Qed.
+
+(* non-vacuity of the set-up family: the condition admits the schedules in which the job runs to its
+   end, or is cancelled and set up again, while its set-up goroutine is parked behind ScheduleJob *)
+Example C20_setup_example :
+  let l1 := [SBegin; SCall; SStart; SFinish; SResume] in
+  let l2 := [SBegin; SCall; SCancel; SBegin; SCall; SResume; SStart; SResume; SFinish] in
+  sguarded false l1 sinit = true /\ srun false l1 sinit = sinit /\
+  sguarded false l2 sinit = true /\ srun false l2 sinit = sinit /\
+  s_mark (srun false [SBegin; SCall; SStart] sinit) = true.
 Proof. vm_compute. auto. Qed.
